@@ -271,6 +271,38 @@ func worldHTTP(w *World) {
 		hw.viol("progress", "stall", "http traffic did not finish within 10 simulated minutes")
 		return
 	}
+	// many exchanges outstanding on one route at the same time (a dozen or two requests to the backend that never
+	// answers): each of them is owed its gateway-timeout answer within the configured time, not one after the other,
+	// and a healthy route is served meanwhile
+	if w.KnobBool("silent_burst", 35) {
+		n := w.KnobPick("silent_burst_n", 11, 14, 24)
+		w.Probe("http.silent_burst")
+		var bw sync.WaitGroup
+		for i := 0; i < n; i++ {
+			bw.Add(1)
+			w.UserN.Go(func() {
+				defer bw.Done()
+				hw.errorProbe(addr, "silent.example.test", time.Duration(timeout)*time.Second+8*time.Second, []int{504}, "silent-backend-burst")
+			})
+		}
+		bw.Add(1)
+		w.UserN.Go(func() {
+			defer bw.Done()
+			time.Sleep(500 * time.Millisecond)
+			cr := simnet.NewRand(w.In.Seed, "burst-healthy")
+			c := hw.genCase(cid, cr, 512)
+			cid++
+			hw.userConn(addr, "10.0.3.98", []*httpCase{c}, rewriteHost, setReq, setResp)
+		})
+		bdone := make(chan struct{})
+		go func() { bw.Wait(); close(bdone) }()
+		select {
+		case <-bdone:
+		case <-time.After(10 * time.Minute):
+			hw.viol("progress", "stall", "a burst of %d requests to a silent backend did not finish within 10 simulated minutes", n)
+			return
+		}
+	}
 	w.SetSample(map[string]any{"cases": cid, "conns": nconn, "rewrite_host": rewriteHost, "enc": enc, "comp": comp, "limit": limit})
 	w.Nontrivial()
 }
